@@ -11,13 +11,15 @@ from . import gen, model as M, sut, world as W
 
 
 def base_cfg(binary, rng=None, max_joins=None, password=None, default_modes=(), preconf=True,
-             extra_channels=()):
+             extra_channels=(), oper_masks=None):
     """-> (server cfg dict for sut.make_config, model Config)"""
     ops = []
     mops = {}
+    masks = dict(gen.OPER_MASK)
+    masks.update(oper_masks or {})
     for name, pw in gen.OPER_PW.items():
-        ops.append({"name": name, "password": sut.password_hash(binary, pw), "mask": gen.OPER_MASK[name]})
-        mops[name] = (pw, gen.OPER_MASK[name])
+        ops.append({"name": name, "password": sut.password_hash(binary, pw), "mask": masks[name]})
+        mops[name] = (pw, masks[name])
     channels = []
     if preconf:
         channels.append({"name": "#pre", "topic": "pre topic",
@@ -142,6 +144,7 @@ def run_episode(args):
                 res["actions"] = w.actions
                 res["variant"] = var
             res["noise"] = dict(w.noise_kinds)
+            res["derived_checks"] = w.derived_checks
             if w.violations or res["inconclusive"]:
                 res["history"] = w.history[-400:]
                 res["transcripts"] = {str(cid): c.transcript[-60:] for cid, c in w.clients.items()}
